@@ -35,4 +35,11 @@ PROPS = {
         "units": [],
         "assumptions": ["MaxFilelist >= 1", "lister honours the ListerAt contract (Legal)"],
     },
+    "C15": {
+        "technique": "lin-points => linearizable theorem + proved stamped-trace checker (checker_sound); exact validation of stamped histories from both real servers",
+        "level_text": "Lean theorems lin_points_imply_linearizable and checker_sound: any history whose operations each have an atomic store step strictly between call and return, with results explained by replaying the sequential file specification in stamp order, is linearizable (total order respecting real time); the executable checker checkStamped is proved sound and complete for that premise. The harness records concurrent single-packet ReadAt/WriteAt/Stat histories through one Client against both real servers (allocator on/off) with a store that stamps each step from the same logical clock, and every history is decided by the proved checker (no search).",
+        "level_note": "Trusted: Lean kernel; the harness's matching of client operations to store steps (unique offsets/lengths and data); atomicity of the backing store is the property's own premise (the store wrapper serialises pread/pwrite). Partial: that executions of the real pipeline supply such stamps for every schedule is observed on recorded histories, not derived from the C02/C03/C18 models (pipeline_has_lin_points not proved).",
+        "units": [],
+        "assumptions": ["backing store ReadAt/WriteAt atomic", "file size constant; operations within the extent and within one packet"],
+    },
 }
